@@ -6,15 +6,21 @@ From Verif Require Import Base.Prelude Base.IntCodec Model.StoreLib
 Local Open Scope Z_scope.
 
 (** * Configuration: a map from configuration keys to values. *)
-Definition spec_caccept (o : cop) : bool :=
+Definition spec_caccept (kd : ckind) (o : cop) : bool :=
   match o with CSet alpha _ key v =>
-    alpha && (length key <=? 58)%nat && (Z.of_nat (length v) <=? 65535) end.
-Definition spec_cstep (m : gmap bytes bytes) (o : cop) : gmap bytes bytes :=
-  match o with CSet _ _ key v => if spec_caccept o then <[key := v]> m else m end.
+    alpha && (length key <=? 58)%nat &&
+    match val_bytes v with Some b => (Z.of_nat (length b) <=? 65535) | None => false end &&
+    match kd with CNetmap => true | CNeoFS => is_bytes v end
+  end.
+(** What is read back is the canonical byte form of the value passed. *)
+Definition spec_cval (o : cop) : bytes :=
+  match o with CSet _ _ _ v => default [] (val_bytes v) end.
+Definition spec_cstep (kd : ckind) (m : gmap bytes bytes) (o : cop) : gmap bytes bytes :=
+  match o with CSet _ _ key _ => if spec_caccept kd o then <[key := spec_cval o]> m else m end.
 Definition spec_cinit (pairs : list (bytes * bytes)) : gmap bytes bytes :=
   fold_left (fun m kv => <[fst kv := snd kv]> m) pairs ∅.
-Definition spec_crun (m0 : gmap bytes bytes) (ops : list cop) : gmap bytes bytes :=
-  fold_left spec_cstep ops m0.
+Definition spec_crun (kd : ckind) (m0 : gmap bytes bytes) (ops : list cop) : gmap bytes bytes :=
+  fold_left (spec_cstep kd) ops m0.
 
 (** * NeoFSID: a set of (owner, key) bindings. *)
 Definition naccept (o : nop) : bool :=
